@@ -82,6 +82,29 @@ theorem tie_store_distances_queryOne (cb : Cb TA M OA U Q E) (shard : List (Nat 
   unfold queryOne
   rfl
 
+/-! ### the `FindBaked` and `Lookup` commands -/
+
+/-- **`FindBaked`** (the per-shard half of `find_usable`): every track of the shard whose status is not `Pending`, with its status
+or the error of the status callback -/
+theorem tie_store_findbaked_cmd (cb : Cb TA M OA U Q E) (shard : List (Nat × Track TA M OA)) :
+    store_findbaked_cmd (fun t => status cb t) shard =
+      shard.filterMap (fun p => match status cb p.2 with
+        | .ok .pending => none
+        | r => some (p.1, r)) := by
+  unfold store_findbaked_cmd
+  refine congrArg (fun f => List.filterMap f shard) ?_
+  funext p
+  obtain ⟨k, t⟩ := p
+  simp only []
+  cases h : status cb t with
+  | error e => rfl
+  | ok st => cases st <;> rfl
+
+/-- **`Lookup`**: the tracks of the shard satisfying the query, each with its id and status -/
+theorem tie_store_lookup_cmd (cb : Cb TA M OA U Q E) (shard : List (Nat × Track TA M OA)) (q : Q) :
+    store_lookup_cmd (fun (t : Track TA M OA) => t.id) (fun t q => lookup cb t q) (fun t => status cb t) shard q =
+      ((shard.map (·.2)).filter (fun t => lookup cb t q)).map (fun t => (t.id, status cb t)) := rfl
+
 /-! ### the `Merge` command -/
 
 theorem mapSet_self {β : Type} (m : List (Nat × β)) (k : Nat) (v : β) (h : mapGet m k = some v) : mapSet m k v = m := by
